@@ -185,4 +185,64 @@ value it had when the handshake completed) — kept only to exhibit the collisio
 def Tx.allocAlertFromCtx (t : Tx) (ctxSeq : Nat) : Tx :=
   { t with log := ⟨.alert, t.epoch, ctxSeq⟩ :: t.log }
 
+/-! ### publishing the write side vs. concurrent senders
+
+When the handshake completes the run loop publishes three things: the state `Connected` (what
+`send()` checks), `write_epoch` and `write_seq` (what `send_record` reads).  Each is one atomic step;
+any number of sender threads run `send()` concurrently: check the state, load the epoch, `fetch_add`
+the sequence number — three atomic steps each.  `PSys` interleaves them arbitrarily. -/
+
+inductive PubStep where
+  | setState | storeEpoch | storeSeq
+deriving DecidableEq, Repr
+
+/-- the order in the code: both counters first, the state last -/
+def pubOrder : List PubStep := [.storeEpoch, .storeSeq, .setState]
+/-- the superseded order (state first), kept to exhibit the race it allowed -/
+def pubOrderStateFirst : List PubStep := [.setState, .storeEpoch, .storeSeq]
+
+structure Shared where
+  connected : Bool := false
+  wEpoch    : Nat := 0
+  wSeq      : Nat := 0
+deriving Repr
+
+structure SenderSt where
+  pc    : Nat := 0        -- 0 idle, 1 saw Connected, 2 loaded the epoch
+  epoch : Nat := 0
+deriving Repr
+
+structure PSys where
+  sh   : Shared := {}
+  rest : List PubStep          -- the publisher's remaining steps
+  thr  : Nat → SenderSt := fun _ => {}
+  log  : List (Nat × Nat) := []   -- (epoch, seq) of every record sealed by a sender
+
+inductive PAct where
+  | pub
+  | snd (t : Nat)
+deriving Repr
+
+def applyPub (E S : Nat) (sh : Shared) : PubStep → Shared
+  | .setState => { sh with connected := true }
+  | .storeEpoch => { sh with wEpoch := E }
+  | .storeSeq => { sh with wSeq := S }
+
+def setThr (thr : Nat → SenderSt) (t : Nat) (v : SenderSt) : Nat → SenderSt := fun x => if x = t then v else thr x
+
+/-- one atomic step; `E`, `S` = the context's epoch and sequence number being published -/
+def PSys.step (E S : Nat) (s : PSys) : PAct → PSys
+  | .pub => match s.rest with
+    | [] => s
+    | p :: ps => { s with rest := ps, sh := applyPub E S s.sh p }
+  | .snd t =>
+    if (s.thr t).pc = 0 then
+      (if s.sh.connected then { s with thr := setThr s.thr t { (s.thr t) with pc := 1 } } else s)
+    else if (s.thr t).pc = 1 then { s with thr := setThr s.thr t { pc := 2, epoch := s.sh.wEpoch } }
+    else { s with thr := setThr s.thr t { (s.thr t) with pc := 0 },
+                  log := ((s.thr t).epoch, s.sh.wSeq) :: s.log,
+                  sh := { s.sh with wSeq := s.sh.wSeq + 1 } }
+
+def PSys.run (E S : Nat) (s : PSys) (acts : List PAct) : PSys := acts.foldl (PSys.step E S) s
+
 end RtcModel.DtlsRecord
